@@ -61,3 +61,24 @@ MUTANTS += [
     ("c07-container-get-scan-continues", "onl/sim/resources/container.py", "            self._level -= event.amount\n            event.succeed()\n            return True\n        else:\n            return False",
      "            self._level -= event.amount\n            event.succeed()\n            return True\n        else:\n            return True", ["C07"]),
 ]
+
+MUTANTS += [
+    # ---- C09
+    ("c09-qlimit-minus-1-dropped", "onl/netdev/port.py", "len(self.store.items) >= self.qlimit - 1", "len(self.store.items) >= self.qlimit", ["C09"]),
+    ("c09-bytes-ge", "onl/netdev/port.py", "byte_count > self.qlimit", "byte_count >= self.qlimit", ["C09"]),
+    ("c09-rate-factor", "onl/netdev/port.py", "yield env.timeout(packet.size * 8 / self.rate)", "yield env.timeout(packet.size * 8.0 / self.rate if packet.size < 1000 else packet.size / self.rate)", ["C09"]),
+    ("c09-drop-not-counted-when-empty", "onl/netdev/port.py", "            self.packets_dropped += 1\n            if self.debug:\n                print(\n                    f\"Packet dropped",
+     "            self.packets_dropped += 1 if self.store.items else 0\n            if self.debug:\n                print(\n                    f\"Packet dropped", ["C09"]),
+    ("c09-stamp-now-plus", "onl/netdev/port.py", "            packet.perhop_time[self.element_id] = self.env.now", "            packet.perhop_time[self.element_id] = packet.time", ["C09"]),
+    ("c09-red-ewma-alpha", "onl/netdev/red_port.py", "        alpha = 2 ** (-self.weight_factor)", "        alpha = 2 ** (-self.weight_factor - 1)", ["C09"]),
+    ("c09-red-drop-below-min", "onl/netdev/red_port.py", "        else:\n            self.byte_size += packet.size\n            self.store.put(packet)\n",
+     "        elif random.uniform(0, 1) < 0.02:\n            self.packets_dropped += 1\n        else:\n            self.byte_size += packet.size\n            self.store.put(packet)\n", ["C09"]),
+    ("c09-red-prob-halved", "onl/netdev/red_port.py", "                * self.max_probability\n            )", "                * self.max_probability / 2\n            )", ["C09"]),
+    ("c09-red-qlimit-gt", "onl/netdev/red_port.py", "        if self.average_queue_size >= self.qlimit:", "        if self.average_queue_size > self.qlimit + 0.5:", ["C09"]),
+    ("c09-monitor-excluded-wrong", "onl/netdev/port_monitor.py", "                total = len(self.port.store.items)\n\n", "                total = len(self.port.store.items) + self.port.busy\n\n", ["C09"]),
+    # ---- C10
+    ("c10-loss-inverted", "onl/netdev/wire.py", "random.uniform(0, 1) >= self.loss_rate", "random.uniform(0, 1) < self.loss_rate", ["C10"]),
+    ("c10-delay-not-reduced", "onl/netdev/wire.py", "yield env.timeout(delay - queued_time)", "yield env.timeout(delay)", ["C10"]),
+    ("c10-cable-shared-wire", "onl/netdev/wire.py", "        dev2.out = self.wire2\n        self.wire2.out = dev1", "        dev2.out = self.wire1\n        self.wire2.out = dev1", ["C10"]),
+    ("c10-delay-drawn-at-put", "onl/netdev/wire.py", "        packet.current_time = self.env.now\n        self.store.put(packet)", "        packet.current_time = self.env.now + (0.25 if self.store.items and len(self.store.items) > 3 else 0)\n        self.store.put(packet)", ["C10"]),
+]
